@@ -928,6 +928,18 @@ func (d *cnDriver) step() error {
 				validity = "badcontent"
 			}
 			sp = &cnTxSpec{Kind: "propose", Signer: who, Gov: content, Amount: int64(d.rng.Intn(50)), Gas: 5000, Validity: validity}
+			switch d.rng.Intn(5) {
+			case 0, 1:
+				// an upgrade at an epoch the minimum distance (3) or more ahead - now and then too soon, or too close to a pending one
+				sp.Gov, sp.Amount, sp.Validity = "upgrade", epochNow+3+int64(d.rng.Intn(3)), "ok"
+				if d.rng.Intn(5) == 0 {
+					sp.Amount, sp.Validity = epochNow+int64(d.rng.Intn(3)), "toosoon"
+				}
+			case 2:
+				// the cancellation of an upgrade: of an earlier proposal (pending upgrade or not), or of one that does not exist
+				sp.Gov, sp.Validity = "cancel-upgrade", "ok"
+				sp.Amount = int64(1 + d.rng.Intn(d.nProposals+2))
+			}
 		} else {
 			who := fmt.Sprintf("E%d", d.rng.Intn(n.cfg.Validators))
 			validity := "ok"
